@@ -636,6 +636,31 @@ pub fn run_c10(run: &mut Run) {
         run.family(format!("dual orientation: {}", fam.describe()), states.len() as u64);
         run.explore(&states, eval_dual_orientation, |s| s.to_json());
     }
+    // (3b) the predicate as the clipping code uses it: every vertex decision the floating-point filter leaves open, in
+    // every clip of every cell of the E1 states (1D/2D/3D: exact ties) and of the displaced / co-spherical families (near
+    // ties with a non-zero determinant), against the integer oracle on the grid positions
+    {
+        let mut fams: Vec<(String, Vec<State>)> = vec![];
+        for fam in e1_families(thorough, &[1, 2, 3], &[false, true]) {
+            if fam.alpha == "G" && !thorough {
+                continue;
+            }
+            fams.push((fam.describe(), fam.states()));
+        }
+        for b in box_menu(false).iter().take(2) {
+            for periodic in [false, true] {
+                let tag = if periodic { "P" } else { "R" };
+                fams.push((format!("displaced 3{}|{}|L3a K<=2", tag, b.name), crate::checks::c05::displaced_states(3, periodic, b, L3A, 2)));
+                fams.push((format!("displaced 2{}|{}|L2h K<=3", tag, b.name), crate::checks::c05::displaced_states(2, periodic, b, Lattice { name: "L2h", m: 2 }, 3)));
+                fams.push((format!("cospherical 3{}|{}", tag, b.name), crate::checks::c05::cospherical_states(3, periodic, b, 2)));
+                fams.push((format!("cocircular 2{}|{}", tag, b.name), crate::checks::c05::cospherical_states(2, periodic, b, 3)));
+            }
+        }
+        for (desc, states) in fams {
+            run.family(format!("tie decisions of the clipping code: {}", desc), states.len() as u64);
+            run.explore(&states, crate::checks::c05::eval_near_ties, |s| s.to_json());
+        }
+    }
     // (4) grid map
     let mut inputs = vec![];
     for b in box_menu(true) {
